@@ -271,4 +271,6 @@ RULES = [
     ("R4", "ExecutionInstrumentMap: name->index and index->name tables are inverse views of the same pairs; keyed lookups", r4),
     ("R5", "role-preserving translation in AccountEventIndexer; ExecutionManager::run translates the received request", r5),
     ("R6", "only indices/names of the map's own exchange translate", r6),
+    ("IDX.R9", "IndexedInstruments lookups: first match over the full vector; key <-> value inverses", common_idx.idx_r9),
+    ("IDX.R10", "add_instrument registers the exchange, the instrument and every asset it refers to", common_idx.idx_r10),
 ]
